@@ -117,6 +117,10 @@ def run_all(run, t):
                 fds = [o for o in r["out"] if o[0] == "FD"]
                 if len(fds) > 1 and r["state"][1] != "RETRANSMITTING" and not (r["in"] and r["in"][0] == "NAK"):
                     V("C07", f"one state-machine call emitted {len(fds)} File Data PDUs: {fds}")
+        # every Metadata PDU of one transaction is the original one (C08: "the original Metadata PDU for a (0,0) request")
+        mds = [bytes(p.pack()) for _, p in sd if tname(p) == "MetadataPdu"]
+        if len(set(mds)) > 1:
+            V("C08", f"the Metadata PDU re-sent by the sender differs from the original ({len(mds[0])} bytes, then {[len(m) for m in mds[1:]]} bytes)")
         # ---------------------------------------------------------- C08: answers to NAKs
         for r in logs:
             if r.get("who") == "S" and r["in"] and r["in"][0] == "NAK" and not r["exc"]:
